@@ -348,10 +348,10 @@ from .rules import spelling  # noqa: E402
              "actions give the same table cell; (T-SPELL(intc)) int / pushint / intc / intc_k give the same cell, unresolvable intc gives no "
              "information, constant block resolved only when unique and in the entry block; (R-DOOR) constants are recognised only through "
              "is_int_push_ins / is_byte_push_ins; (T-REWRITE) label renaming, comments, blank lines, indentation leave the graph of 30 "
-             "program shape classes unchanged; (T-PAD) padding at statement boundaries. The thorough tier adds (T-META(sweep)): ~580 enumerated "
+             "program shape classes unchanged; (T-REWRITE(contexts)) padding at statement boundaries; (T-REWRITE(move)) subroutine bodies written in a different order. The thorough tier adds (T-META(sweep)): ~580 enumerated "
              "programs of the direct-check fragment x 7 rewritings (layout, hex, octal, pushint, intcblock/intc, padding, all together) - the "
              "per-block contexts and the rekey-to paths of the rewritten program equal those of the original. Not decided: the metamorphic "
-             "relation for all programs and all compositions; moving subroutine bodies.")
+             "relation for all programs and all compositions.")
 def c15(ctx, rep):
     _r(spelling.rule_int_spellings, ctx, rep)
     _r(spelling.rule_named_constants, ctx, rep)
@@ -359,6 +359,7 @@ def c15(ctx, rep):
     _r(spelling.rule_one_door, ctx, rep)
     _r(spelling.rule_rewrite_invariance, ctx, rep)
     _r(spelling.rule_padding_invariance, ctx, rep)
+    _r(spelling.rule_move_subroutines, ctx, rep)
 
 
 from .rules import regex_rules  # noqa: E402
